@@ -130,6 +130,30 @@ func runTimeRangeUniverse(c *fw.Ctx, deal func() bool) {
 			}
 		}
 	}
+	// range bounds that are not whole seconds: half a second past a grid point
+	// (the verdict differs from the grid point's only at a tie)
+	half := func(i int) time.Time { return g(i).Add(500 * time.Millisecond) }
+	for _, kind := range []string{"DTEND", "DURATION>0", "DURATION=0", "DTSTART-only"} {
+		instant := kind == "DURATION=0" || kind == "DTSTART-only"
+		for s := 0; s <= 4; s++ {
+			for e := s; e <= 4; e++ {
+				if instant != (e == s) {
+					continue
+				}
+				ev := mkEvent(kind, "utc", g(s), g(e))
+				for rs := -1; rs <= 4; rs++ {
+					for re := -1; re <= 4; re++ {
+						if rs >= 0 {
+							one(ev, mk(rs, "", half), mk(re, "", g), false, g(s))
+						}
+						if re >= 0 {
+							one(ev, mk(rs, "", g), mk(re, "", half), false, g(s))
+						}
+					}
+				}
+			}
+		}
+	}
 	// all-day and floating events: the zone of interpretation is open, so the
 	// grid brackets the thresholds (-14h, +12h around each boundary)
 	day := time.Date(2024, 1, 15, 0, 0, 0, 0, time.UTC)
@@ -149,6 +173,15 @@ func runTimeRangeUniverse(c *fw.Ctx, deal func() bool) {
 					}
 					one(ev, mk(rs, rloc, at), mk(re, rloc, at), false, day)
 				}
+			}
+		}
+		// range start and end carried in different Locations
+		for rs := -1; rs < len(hours); rs++ {
+			for re := -1; re < len(hours); re++ {
+				if rs < 0 && re < 0 {
+					continue
+				}
+				one(ev, mk(rs, "America/New_York", at), mk(re, "", at), false, day)
 			}
 		}
 	}
@@ -525,9 +558,263 @@ func runRecurringUniverse(c *fw.Ctx, deal func() bool) {
 	c.Note("universe_c", fmt.Sprintf("%d recurring event shapes x all (start,end) pairs over the instance-boundary grid", shapes))
 	runZonedRecurringUniverse(c, deal)
 	runExdateUniverse(c, deal)
+	runLongSeriesUniverse(c, deal)
+	runAllDayRecurringUniverse(c, deal)
 }
 
-// (c'') exception dates: every non-empty proper subset of the instances of a
+// (c-long) the range lies far into the series. The dimension stretched here is
+// the number of instances between DTSTART and the range: a ladder from none to
+// tens of thousands (thorough: hundreds of thousands), the exact number on a
+// rung drawn from the seed. Series: FREQ=SECONDLY..WEEKLY, INTERVAL 1 or 3,
+// without an end, or with a COUNT or an UNTIL that makes instance n the last
+// one or the first one that no longer exists; instances of no length, half a
+// step long, one and a half steps long (overlapping each other). Ranges: the
+// first second of instance n, the gap before and behind it, and the open-ended
+// ranges beginning there (a bounded series is then walked to its end).
+func runLongSeriesUniverse(c *fw.Ctx, deal func() bool) {
+	ladder := []int{0, 7, 60, 400, 1500, 6000, 20000}
+	if c.Thorough() {
+		ladder = append(ladder, 60000, 200000)
+	}
+	S := g(0)
+	shapes := 0
+	for fi, freq := range []string{"SECONDLY", "MINUTELY", "HOURLY", "DAILY", "WEEKLY"} {
+		for _, ival := range []int{1, 3} {
+			step := time.Duration(ival) * freqSteps[freq]
+			for _, durKind := range []string{"none", "half a step", "one and a half steps"} {
+				var dur time.Duration
+				switch durKind {
+				case "half a step":
+					dur = step / 2
+				case "one and a half steps":
+					dur = step * 3 / 2
+				}
+				if dur%time.Second != 0 || (dur == 0) != (durKind == "none") {
+					continue
+				}
+				for ri, rung := range ladder {
+					n := rung + c.Rand("c06-long", fi*100+ival*10+ri).Intn(rung/4+1)
+					if time.Duration(n+2) > 60*365*24*time.Hour/step {
+						continue // keep well inside the horizon of the reference
+					}
+					at := func(k int) time.Time { return S.Add(time.Duration(k) * step) }
+					// behind(k): the first instant at which instance k is over
+					behind := func(k int) time.Time {
+						if dur == 0 {
+							return at(k).Add(time.Second)
+						}
+						return at(k).Add(dur)
+					}
+					for _, bound := range []string{"endless", "COUNT: n is the last", "COUNT: n-1 is the last", "UNTIL: n is the last", "UNTIL: n-1 is the last"} {
+						if n == 0 && strings.Contains(bound, "n-1") {
+							continue
+						}
+						rule := "FREQ=" + freq
+						switch bound {
+						case "COUNT: n is the last":
+							rule += fmt.Sprintf(";COUNT=%d", n+1)
+						case "COUNT: n-1 is the last":
+							rule += fmt.Sprintf(";COUNT=%d", n)
+						case "UNTIL: n is the last":
+							rule += ";UNTIL=" + at(n).Format(utcLayout)
+						case "UNTIL: n-1 is the last":
+							rule += ";UNTIL=" + at(n).Add(-time.Second).Format(utcLayout)
+						}
+						if ival != 1 {
+							rule += fmt.Sprintf(";INTERVAL=%d", ival)
+						}
+						shapes++
+						ev := Comp{Name: "VEVENT", Props: []Prop{rawProp("UID", "rl"), dtProp("DTSTART", S, "utc")}}
+						switch durKind {
+						case "half a step":
+							ev.Props = append(ev.Props, durProp(dur))
+						case "one and a half steps":
+							ev.Props = append(ev.Props, dtProp("DTEND", S.Add(dur), "utc"))
+						}
+						ev.Props = append(ev.Props, rawProp("RRULE", rule))
+						cal := vcal(ev)
+						ranges := [][2]Time{
+							{mkTime(at(n), ""), mkTime(at(n).Add(time.Second), "")},
+							{mkTime(at(n), ""), {}},
+							{mkTime(behind(n), ""), {}},
+						}
+						if behind(n).Before(at(n + 1)) {
+							ranges = append(ranges, [2]Time{mkTime(behind(n), ""), mkTime(at(n+1), "")})
+						}
+						if n > 0 && behind(n-1).Before(at(n)) {
+							ranges = append(ranges, [2]Time{mkTime(behind(n-1), ""), mkTime(at(n), "")})
+						}
+						for _, rg := range ranges {
+							if !deal() {
+								continue
+							}
+							f := rangeFilter(rg[0], rg[1])
+							o := execMatch(c, Case{Op: "match", Universe: "c:recurring, range far into a long or endless series", Filter: &f, Object: &cal})
+							if o.Class == "agree" {
+								c.Observe("long_series_judged", fmt.Sprintf("%6d.. instances before the range / reference %s", rung, o.Want), 1)
+								c.Observe("long_series_shapes_judged", freq+" / "+strings.SplitN(bound, ":", 2)[0], 1)
+							}
+						}
+					}
+				}
+			}
+		}
+	}
+	c.Note("universe_c_long", fmt.Sprintf("%d long or endless recurring event shapes (FREQ=SECONDLY..WEEKLY, INTERVAL 1|3, no end / COUNT / UNTIL) on a ladder of up to %d.. instances between DTSTART and the range", shapes, ladder[len(ladder)-1]))
+}
+
+// (c-allday) recurring events whose DTSTART is a DATE or a floating DATE-TIME.
+// The zone in which such a value is read is open (any UTC offset from -12h to
+// +14h), and the series runs on that zone's wall clock; a verdict is demanded
+// where all readings agree. The grid brackets every instance boundary at the
+// thresholds of that envelope (-14h, 0, +12h); windows of growing width, and
+// open-ended ones, begin at every grid point; range values in UTC and in a
+// zoned time.Time.
+func runAllDayRecurringUniverse(c *fw.Ctx, deal func() bool) {
+	day := time.Date(2024, 1, 15, 0, 0, 0, 0, time.UTC)
+	type fk struct {
+		kind, spelling string
+		S              time.Time
+		dur            time.Duration
+	}
+	kinds := []fk{
+		{"DATE", "", day, 24 * time.Hour},
+		{"DATE+DTEND", "", day, 48 * time.Hour},
+		{"DATE+DURATION", "", day, 24 * time.Hour},
+		{"DTSTART-only", "floating", day.Add(10 * time.Hour), 0},
+		{"DTEND", "floating", day.Add(10 * time.Hour), time.Hour},
+		{"DURATION>0", "floating", day.Add(10 * time.Hour), time.Hour},
+	}
+	offsets := []time.Duration{-14*time.Hour - 30*time.Minute, -14 * time.Hour, -30 * time.Minute, 0, 30 * time.Minute, 12 * time.Hour, 12*time.Hour + 30*time.Minute}
+	shapes := 0
+	for _, k := range kinds {
+		for _, rule := range []string{"FREQ=DAILY;COUNT=3", "FREQ=DAILY;COUNT=2;INTERVAL=3", "FREQ=WEEKLY;COUNT=2", "FREQ=DAILY;COUNT=1"} {
+			rr, ok := parseRRule(rule)
+			if !ok {
+				continue
+			}
+			shapes++
+			ev := mkEvent(k.kind, k.spelling, k.S, k.S.Add(k.dur))
+			ev.Props = append(ev.Props, rawProp("RRULE", rule))
+			cal := vcal(ev)
+			pts := map[int64]time.Time{}
+			for _, in := range (evInterval{S: k.S, E: k.S.Add(k.dur), rec: rr}).instances() {
+				for _, t := range []time.Time{in[0], in[1]} {
+					for _, off := range offsets {
+						u := t.Add(off)
+						pts[u.Unix()] = u
+					}
+				}
+			}
+			var grid []time.Time
+			for _, t := range pts {
+				grid = append(grid, t)
+			}
+			sort.Slice(grid, func(i, j int) bool { return grid[i].Before(grid[j]) })
+			for _, rloc := range []string{"", "America/New_York"} {
+				one := func(a, b Time) {
+					if !deal() {
+						return
+					}
+					f := rangeFilter(a, b)
+					o := execMatch(c, Case{Op: "match", Universe: "c:recurring with a DATE or floating DTSTART (zone envelope)", Filter: &f, Object: &cal})
+					res := o.Class
+					if failing(res) {
+						res = "deviates"
+					}
+					c.Observe("allday_recurring", k.kind+" "+k.spelling+" / "+res, 1)
+				}
+				for rs := 0; rs < len(grid); rs++ {
+					for w := 1; rs+w < len(grid); w *= 2 {
+						one(mkTime(grid[rs], rloc), mkTime(grid[rs+w], rloc))
+					}
+					one(mkTime(grid[rs], rloc), Time{})
+					one(Time{}, mkTime(grid[rs], rloc))
+				}
+			}
+		}
+	}
+	c.Note("universe_c_allday", fmt.Sprintf("%d recurring event shapes with a DATE or floating DTSTART (DAILY/WEEKLY, COUNT 1-3) x windows over the instance-boundary grid bracketed at -14h / 0 / +12h, range values in UTC and in America/New_York", shapes))
+}
+
+// usesOwnTimezone: some property of a VEVENT of the calendar carries a TZID
+// that is not an IANA name but is defined by a VTIMEZONE child of the calendar.
+func usesOwnTimezone(root Comp) bool {
+	defined := map[string]bool{}
+	for _, ch := range root.Children {
+		if ch.Name == "VTIMEZONE" {
+			for _, p := range ch.Props {
+				if p.Name == "TZID" {
+					defined[p.Value] = true
+				}
+			}
+		}
+	}
+	for _, ch := range root.Children {
+		if ch.Name != "VEVENT" {
+			continue
+		}
+		for _, p := range ch.Props {
+			if vals, n := paramVals(p, "TZID"); n == 1 && len(vals) == 1 && defined[vals[0]] {
+				if _, err := loadLoc(vals[0]); err != nil {
+					return true
+				}
+			}
+		}
+	}
+	return false
+}
+
+// (g) events in a time zone of the object's own: the TZID is not an IANA name
+// but names a VTIMEZONE component of the same calendar (RFC 5545 3.6.5), as
+// calendars exported by several widespread clients do. The reference does not
+// interpret VTIMEZONE definitions, so no verdict is demanded; what is checked
+// is that Match evaluates such a valid object at all.
+func runOwnTimezoneUniverse(c *fw.Ctx, deal func() bool) {
+	S := time.Date(2024, 1, 15, 10, 0, 0, 0, time.UTC)
+	local := func(name, tzid string, t time.Time) Prop {
+		return rawProp(name, t.Format("20060102T150405"), Param{Name: "TZID", Vals: []string{tzid}})
+	}
+	for _, tzid := range []string{"W. Europe Standard Time", "/example.org/20240101_1/Berlin"} {
+		vtz := Comp{Name: "VTIMEZONE", Props: []Prop{rawProp("TZID", tzid)}, Children: []Comp{
+			{Name: "STANDARD", Props: []Prop{rawProp("DTSTART", "16011028T030000"), rawProp("RRULE", "FREQ=YEARLY;BYDAY=-1SU;BYMONTH=10"),
+				rawProp("TZOFFSETFROM", "+0200"), rawProp("TZOFFSETTO", "+0100")}},
+			{Name: "DAYLIGHT", Props: []Prop{rawProp("DTSTART", "16010325T020000"), rawProp("RRULE", "FREQ=YEARLY;BYDAY=-1SU;BYMONTH=3"),
+				rawProp("TZOFFSETFROM", "+0100"), rawProp("TZOFFSETTO", "+0200")}},
+		}}
+		for _, kind := range []string{"DTEND", "DURATION", "DTSTART-only", "recurring"} {
+			ev := Comp{Name: "VEVENT", Props: []Prop{rawProp("UID", "z1"), local("DTSTART", tzid, S)}}
+			switch kind {
+			case "DTEND":
+				ev.Props = append(ev.Props, local("DTEND", tzid, S.Add(time.Hour)))
+			case "DURATION":
+				ev.Props = append(ev.Props, durProp(time.Hour))
+			case "recurring":
+				ev.Props = append(ev.Props, rawProp("RRULE", "FREQ=DAILY;COUNT=3"))
+			}
+			cal := vcal(vtz, ev)
+			for _, rg := range [][2]Time{
+				{mkTime(S.Add(-24*time.Hour), ""), mkTime(S.Add(24*time.Hour), "")},
+				{mkTime(S.Add(-48*time.Hour), ""), mkTime(S.Add(-24*time.Hour), "")},
+				{mkTime(S.Add(-24*time.Hour), ""), {}},
+				{{}, mkTime(S.Add(24*time.Hour), "")},
+			} {
+				if !deal() {
+					continue
+				}
+				f := rangeFilter(rg[0], rg[1])
+				o := execMatch(c, Case{Op: "match", Universe: "g:TZID defined by the object's own VTIMEZONE", Filter: &f, Object: &cal})
+				if o.Err != "" {
+					c.Observe("own_timezone", kind+" / Match failed", 1)
+				} else {
+					c.Observe("own_timezone", kind+" / Match returned a verdict (not judged)", 1)
+				}
+			}
+		}
+	}
+}
+
+// (c-exdate) exception dates: every non-empty proper subset of the instances of a
 // DAILY rule with COUNT 2..4 taken out by EXDATE (one property with a list,
 // or one property per date), zero-length and one-hour instances; ranges over
 // the instance-boundary grid. An occurrence removed by EXDATE is not an
